@@ -144,6 +144,13 @@ func c07Request(class string) []byte {
 			"X-Forwarded-For: 1.2.3.4.5, ::::, " + strings.Repeat("9", 300) + "\r\nContent-Type: multipart/form-data; boundary=\r\nContent-Length: 10\r\n\r\nnot-gzip!!")
 	case "absoluteuri":
 		return []byte("GET http://w.test/ok HTTP/1.1\r\nHost: w.test\r\n\r\n")
+	case "multipart":
+		return []byte("POST /ok HTTP/1.1\r\nHost: w.test\r\nContent-Type: multipart/form-data; boundary=XX\r\nContent-Length: 91\r\n\r\n" +
+			"--XX\r\nContent-Disposition: form-data; name=\"f\"; filename=\"a.txt\"\r\n\r\nDATA\r\n--XX--\r\n" + "        ")
+	case "range":
+		return []byte("GET /ok HTTP/1.1\r\nHost: w.test\r\nRange: bytes=0-10, 20-30, -5\r\nIf-None-Match: W/\"abc\", \"def\"\r\nCache-Control: no-cache\r\nX-Forwarded-For: 10.0.0.1, 2001:db8::1\r\nX-Forwarded-Host: a.b.c.test\r\n\r\n")
+	case "accept":
+		return []byte("GET /ok?x=1&y[]=2&z[a]=3 HTTP/1.1\r\nHost: sub.w.test\r\nAccept: text/html;q=0.8, application/json;v=1;q=0.9, */*;q=0.1\r\nAccept-Encoding: gzip;q=1.0, br\r\nAccept-Language: en-US,en;q=0.5\r\nAccept-Charset: utf-8, iso-8859-1;q=0.5\r\nCookie: a=b; fiber_flash=\x91\x82\xa3key\xa1k\xa5value\xa1v\r\n\r\n")
 	}
 	return []byte("GET /ok HTTP/1.1\r\nHost: w.test\r\n\r\n")
 }
@@ -328,6 +335,95 @@ func TestC07(t *testing.T) {
 			o.sample(map[string]any{"first": cs.First, "helper": cs.Helper, "arg": cs.Arg, "ctx": cs.Ctx, "status": resp.Status, "headers": resp.Headers})
 		}
 	})
+	// ---- mutation tier: byte-level mutants of the class templates; the oracle is the spec's status universe and its
+	// status -> connection-fate function, the strict parser and the allocation budget (no prescribed status per mutant)
+	nFuzz, _ := strconv.Atoi(os.Getenv("VERIF_FUZZ"))
+	seed, _ := strconv.ParseUint(os.Getenv("VERIF_SEED"), 10, 64)
+	x := seed*2862933555777941757 + 3037000493
+	rnd := func(w int) int {
+		x ^= x << 13
+		x ^= x >> 7
+		x ^= x << 17
+		return int(x % uint64(w))
+	}
+	classes := []string{"ok", "unknownmethod", "badmethodbytes", "spaceintarget", "noversion", "clabc", "clneg", "dupcl", "badchunk", "hostileheaders", "absoluteuri", "multipart", "range", "accept"}
+	special := []byte("\r\n\x00 :;,=%\"\\-*/?&\xff\x80\t0123456789")
+	kinds := []string{"default", "custom", "immutable", "methods", "unescape"}
+	universe := map[int]int{200: 200, 206: 200, 404: 200, 416: 200, 501: 200, 400: 0, 413: 0, 431: 0, 408: 0}
+	var nResp, nSilent int
+	statusSeen := map[int]int{}
+	for i := 0; i < nFuzz; i++ {
+		cls := classes[rnd(len(classes))]
+		req := append([]byte{}, c07Request(cls)...)
+		for m := 1 + rnd(3); m > 0 && len(req) > 4; m-- {
+			pos := rnd(len(req))
+			switch rnd(6) {
+			case 0:
+				req[pos] = special[rnd(len(special))]
+			case 1:
+				req = append(req[:pos], append([]byte{special[rnd(len(special))]}, req[pos:]...)...)
+			case 2:
+				end := min(len(req), pos+1+rnd(8))
+				req = append(req[:pos], req[end:]...)
+			case 3:
+				end := min(len(req), pos+1+rnd(24))
+				req = append(req[:end], append(append([]byte{}, req[pos:end]...), req[end:]...)...)
+			case 4:
+				req[pos] ^= byte(1 << rnd(8))
+			case 5:
+				req = req[:pos]
+			}
+		}
+		kind := kinds[rnd(len(kinds))]
+		fail := func(what string, exp, got any) {
+			o.violation(map[string]any{"check": "wire-" + what, "prop": "C07", "first": "mutant-of-" + cls, "helper": "", "arg": "", "ctx": kind, "request": string(req), "expected": exp, "observed": got})
+		}
+		var ms1, ms2 runtime.MemStats
+		runtime.ReadMemStats(&ms1)
+		conn, err := lns[kind].Dial()
+		if err != nil {
+			t.Fatal(err)
+		}
+		_ = conn.SetDeadline(time.Now().Add(20 * time.Millisecond))
+		go func() { _, _ = conn.Write(req) }()
+		br := bufio.NewReader(conn)
+		resp, err := readStrict(br)
+		runtime.ReadMemStats(&ms2)
+		if err != nil { // an incomplete request: the server rightly waits for the rest
+			nSilent++
+			conn.Close()
+			continue
+		}
+		nResp++
+		if resp.Err != "" {
+			fail("response-not-well-formed", "a well-formed HTTP/1.1 response", resp.Err)
+			conn.Close()
+			continue
+		}
+		statusSeen[resp.Status]++
+		second, ok := universe[resp.Status]
+		if !ok {
+			fail("status", "a status of the spec's universe", resp.Status)
+			conn.Close()
+			continue
+		}
+		if alloc := ms2.TotalAlloc - ms1.TotalAlloc; alloc > 4<<20+64*uint64(len(req)) {
+			fail("allocation-out-of-proportion", "<= 4MiB + 64 x request size", alloc)
+		}
+		if second == 0 { // a rejected request: nothing more may be served on this connection
+			_ = conn.SetDeadline(time.Now().Add(20 * time.Millisecond))
+			if _, err := conn.Write([]byte("GET /ok HTTP/1.1\r\nHost: w.test\r\n\r\n")); err == nil {
+				if r2, e2 := readStrict(br); e2 == nil && r2.Err == "" && r2.Status == 200 {
+					fail("connection-fate", 0, r2.Status)
+				}
+			}
+		}
+		conn.Close()
+		if i%997 == 0 {
+			o.sample(map[string]any{"mutant_of": cls, "ctx": kind, "request": string(req[:min(len(req), 200)]), "status": resp.Status})
+		}
+	}
 	_ = net.ErrClosed
-	o.summary(map[string]any{"cases": n, "helper_calls_with_hostile_argument": nHostileArg, "malformed_or_oversized_requests": nMalformed, "violations": o.nV})
+	o.summary(map[string]any{"cases": n, "helper_calls_with_hostile_argument": nHostileArg, "malformed_or_oversized_requests": nMalformed,
+		"mutants": nFuzz, "mutants_answered": nResp, "mutants_incomplete_no_answer": nSilent, "mutant_statuses": statusSeen, "violations": o.nV})
 }
